@@ -36,6 +36,7 @@ KEYS = ("text", "B", "s", "label", "tro", "heuristic", "cap")
 
 L_STREAM = "layer streaming loop / line parser (C08, C16): which rows form the batches"
 L_SAMPLER = "layer sampler (C07: prior_combinations_sample on the process-global counter, threaded through the batches)"
+L_ROWS = "layer rank graph rows (C06: mirror rows / Constant once)"
 L_COUNTS = "layer reported counts (C07: combination_estimation_counts.json = per-candidate number of selections)"
 L_TABLE = "layer table (C05 batch scores / C08 median over exactly the batches that evaluated the pair, final sort)"
 
@@ -121,6 +122,26 @@ def gen_case(rng, family):
     return {"text": text, "B": B, "s": s, "label": label, "tro": tro, "heuristic": heuristic, "cap": pick_cap(rng, nc),
             "family": family, "ncols": ncols, "nlines": len(lines), "good_selected": good_sel, "eol": eolk,
             "final_newline": True, "features": feats, "ncands": nc, "planned_batches": nb}
+
+
+def grid_cases(rng):
+    """Systematic scope (thorough tier): every (ncols 2..5, mode, heuristic, cap 1..#candidates+1) with enough batches of 2 rows
+    for every candidate to be evaluated at least twice; cells drawn once per ncols."""
+    out = []
+    for ncols in (2, 3, 4, 5):
+        names = ["label" if j == ncols // 2 else "c%d" % j for j in range(ncols)]
+        for tro in ("True", "False"):
+            nc = ncands_of(ncols, tro)
+            for cap in range(1, nc + 2):
+                nb = min(40, -(-2 * nc // cap) + 1)
+                rows = [",".join(rng.choice(["a", "b", "c"][:2 + (j % 2)]) for j in range(ncols)) for _ in range(2 * nb + 1)]
+                text = ",".join(names) + "\n" + "".join(r + "\n" for r in rows)
+                for heur in (H_COV, H_CONST):
+                    out.append({"text": text, "B": 2, "s": 1, "label": "label", "tro": tro, "heuristic": heur, "cap": cap,
+                                "family": "grid", "ncols": ncols, "nlines": len(rows), "good_selected": len(rows), "eol": "lf",
+                                "final_newline": True, "features": {"bad_selected": 0, "quoted": 0}, "ncands": nc,
+                                "planned_batches": nb})
+    return out
 
 
 def load_corpus():
@@ -247,14 +268,16 @@ def compare_sels(case, res, mv):
             return ("every batch returns its triplets", "batch %d: %s" % (k, b.get("pairs_error")), L_SAMPLER)
         got = Counter(ukey(p) for p in pairs)
         want = set(ukey(p) for p in msel)
-        nsel = len(pairs) // per
-        if len(pairs) != per * len(msel):
+        if len(got) != len(want):
             return ("each batch evaluates exactly min(cap, #candidates) distinct candidates",
-                    "batch %d evaluated %s pairs (%d rows), model %d = min(cap %d, #candidates %d): implementation %s, model %s" % (
-                        k, nsel, len(pairs), len(msel), case["cap"], mv["ncands"], sorted(got), sorted(want)), L_SAMPLER)
-        if set(got) != want or any(v != per for v in got.values()):
+                    "batch %d (0-based) evaluated %d distinct pairs (%d rows), model %d = min(cap %d, #candidates %d): implementation %s, model %s" % (
+                        k, len(got), len(pairs), len(msel), case["cap"], mv["ncands"], sorted(got), sorted(want)), L_SAMPLER)
+        if set(got) != want:
             return ("each batch evaluates the least-evaluated candidates (ties: candidate-list order), each once",
-                    "batch %d (0-based): implementation evaluated %s, model selects %s" % (k, sorted(got.items()), sorted(want)), L_SAMPLER)
+                    "batch %d (0-based): implementation evaluated %s, model selects %s" % (k, sorted(got), sorted(want)), L_SAMPLER)
+        if any(v != per for v in got.values()):
+            return ("every evaluated pair yields its row and the mirrored row (Constant: one row)",
+                    "batch %d (0-based): rows per pair %s, expected %d each" % (k, sorted(got.items()), per), L_ROWS)
         if const:
             if sorted(tuple(p) for p in pairs) != sorted(msel):
                 return ("Constant: every selected candidate once, in the listed orientation",
@@ -264,7 +287,7 @@ def compare_sels(case, res, mv):
             for a, b2 in msel:
                 if (a == b2 and oc[(a, b2)] != 2) or (a != b2 and (oc[(a, b2)] != 1 or oc[(b2, a)] != 1)):
                     return ("every evaluated pair yields its row and the mirrored row", "batch %d pair (%s, %s): rows %s" % (
-                        k, a, b2, sorted(oc.items())), "layer rank graph rows (C06)")
+                        k, a, b2, sorted(oc.items())), L_ROWS)
     return None
 
 
@@ -356,6 +379,9 @@ def relation_verdict(case, res, dval):
         hdr = "From Coq Require Import List ZArith.\nFrom Outrank Require Import Pipeline.Sampler.\nImport ListNotations."
         v = vlib.coq_eval("E2Ecaprel", hdr, ["(valid_runb [] %s (derived_obs [] %s), steps_ok [] %s (derived_obs [] %s))" % (ops, ss, ops, ss)])[0]
         ok, steps = v
+        same = [sorted(s) for s in sels] == [sorted({idx[ukey((dec(a), dec(b)))] for a, b, _ in bt[1]}) for bt in dval[3]]
+        if same:
+            return "the implementation's per-batch selections are the model's (C07's relation accepts them: valid_runb = %s)" % ok
         if ok:
             return ("C07's relation accepts the implementation's selection history (valid_runb = true): a valid sampler with another "
                     "tie-breaking than the stable candidate-list order of sorted()")
@@ -382,7 +408,7 @@ def shrink_variants(case):
     return out
 
 
-def shrink(case, clause, root, budget_s=100):
+def shrink(case, clause, root, budget_s=60):
     t0 = time.time()
     best = case
     for rnd in range(8):
@@ -421,11 +447,16 @@ def check(run, replay):
     else:
         cases = load_corpus()
         if run.tier == "quick":
-            fams = ["batches"] * 110 + ["e2e-small"] * 20 + ["e2e-tail"] * 2
+            fams = ["batches"] * 220 + ["e2e-small"] * 40 + ["e2e-tail"] * 3
         else:
-            fams = ["batches"] * 1300 + ["e2e-small"] * 300 + ["e2e-tail"] * 40
+            fams = ["batches"] * 2600 + ["e2e-small"] * 500 + ["e2e-tail"] * 60
         for fam in fams:
             cases.append(gen_case(run.rng, fam))
+        if run.tier == "thorough":
+            g = grid_cases(run.rng)
+            cases.extend(g)
+            run.cov["systematic_scope"] = ("every (ncols 2..5, mode, heuristic, cap 1..#candidates+1) with enough batches for every "
+                                           "candidate to be evaluated at least twice: %d files" % len(g))
     root = os.path.join(vlib.CACHE, "e2ecap", str(os.getpid()))
     with ThreadPoolExecutor(max_workers=2) as ex:      # the implementation and the model run side by side
         fi = ex.submit(run_cases, cases, root)
